@@ -1,12 +1,13 @@
 /-
 C18  The sourcepos option only adds attributes (HTML part; token level).
 `eraseSp` removes the `data-sourcepos` attribute from comrak's own start tags.
-Per-node theorems for all 41 node kinds, every option vector, context and writer state.
-(The lift to whole trees - which additionally needs the writer states of the two runs to
-coincide - is exercised by the correspondence and the on/off oracle on real output on every
-run; it is not yet a Lean theorem.)
+Per-node theorems for all 41 node kinds, every option vector, context and writer state, and
+their lift to whole trees of any depth and width (`html_sourcepos_only_adds`): the writer
+states of the two runs coincide after every step because `last_was_lf` is determined by the
+last byte written, which erasing an attribute never changes.
 -/
 import Comrak.Lemmas.HtmlSp
+import Comrak.Lemmas.HtmlSpTree
 namespace Comrak.C18
 open Comrak Bytes
 
@@ -34,6 +35,24 @@ theorem off_has_no_sourcepos (o : HtmlOpts) (nt : NormTable) (cx : Ctx) (v : Nod
   congr 1
   funext t
   cases t <;> simp [eraseSpTok, List.filter_filter]
+
+/-- **C18 (HTML), whole trees.** For every option vector, normalisation table and tree of any
+    depth and width: deleting the `data-sourcepos` attributes from the rendering with the option
+    on gives exactly the rendering with the option off. -/
+theorem html_sourcepos_only_adds (o : HtmlOpts) (nt : NormTable) (t : Tree) :
+    eraseSp (renderToks (withSp o true) nt t) = renderToks (withSp o false) nt t := by
+  unfold renderToks
+  simp only [W.seq_fst, eraseSp_append]
+  obtain ⟨h1, h2⟩ := renderT_withSp o nt t {} {}
+  rw [h1, h2]
+  congr 1
+  unfold finish
+  split <;> simp [eraseSp, eraseSpTok, nl]
+
+/-- The writer ends in the same state with and without position output. -/
+theorem state_independent_of_sourcepos (o : HtmlOpts) (nt : NormTable) (t : Tree) (cx : Ctx) (st : St) :
+    (renderT (withSp o true) nt cx t st).2 = (renderT (withSp o false) nt cx t st).2 :=
+  (renderT_withSp o nt t cx st).2
 
 /-! Non-vacuity -/
 example : eraseSp (enter (withSp {} true) {} {} .blockQuote { sl := 1, sc := 1, el := 2, ec := 3 } .nil {}).1
